@@ -1,9 +1,69 @@
 import StraxModel.Driver.Parse
-namespace Strax.Driver
-open Strax
+import StraxModel.Model.Backpressure
+/-
+  Driver ops of property C13 (chain model of Model/Backpressure.lean).
 
-/-- ops of property C13 (stub: no ops yet) -/
+  wiring description, shared by all ops:  `<lazy> <caps> <savers>`
+     lazy    0 | 1
+     caps    capacities of the mailboxes of the chain, source side first, joined by `,`
+     savers  number of savers per mailbox, joined by `,`
+  `c13.wire <lazy> <caps> <savers>`
+     answer `ok <mb_0>;<mb_1>;… B=<B> Blazy=<Blazy>` with `<mb> = <cap>:<lazy>:<can_drive flags>`
+  `c13.rest <lazy> <caps> <savers> <N> <k> <pre> <post>`
+     a source of N chunks; the pipeline runs under priority policy `pre` (`up` | `down` | `lag`) until the consumer
+     has been handed k chunks, then the consumer is paused and everything else runs under `post` until nothing is
+     enabled.  answer `ok wire=<mb_0>;<mb_1>;… pause=<source chunks computed at the pause> quiet=<… at quiescence>
+     rest=<1 if quiescent> B=<bound: B, in lazy mode Blazy>`
+-/
+namespace Strax.Driver.C13
+open Strax Strax.Mailbox Strax.Backpressure
+
+def parseWiring (lazy caps savers : String) : Option Wiring := do
+  let lazy ← parseBool lazy
+  let caps ← parseNats caps
+  let savers ← parseNats savers
+  if caps.isEmpty || savers.length != caps.length then none else
+  pure ⟨lazy, caps, savers⟩
+
+def parsePolicy (s : String) : Option Policy :=
+  if s == "up" then some .up else if s == "down" then some .down else if s == "lag" then some .lag else none
+
+def b01 (b : Bool) : String := if b then "1" else "0"
+
+def showMb (mb : MB) : String :=
+  let cap := match mb.cap with
+    | none => "inf"
+    | some c => toString c
+  s!"{cap}:{b01 mb.lazy}:{String.join (mb.subs.map fun sub => b01 sub.canDrive)}"
+
+def wireDesc (w : Wiring) : String := ";".intercalate ((wire w 0).mbs.map showMb)
+
+def showWire (w : Wiring) : String := s!"ok {wireDesc w} B={B w} Blazy={Blazy}"
+
+/-- the bound that applies to this wiring -/
+def bound (w : Wiring) : Nat := if w.lazy then min Blazy (B w) else B w
+
+def chunks (n : Nat) (s : Net) : Nat := min s.emitted n
+
+def rest (w : Wiring) (n k : Nat) (pre post : Policy) : String :=
+  let fuel := 200 * (n + 2) * (w.caps.length + 2) * (w.caps.foldl max 1 + 1)
+  let (s1, _) := runPolicy pre true (fun s => decide (k ≤ s.pulled)) fuel (wire w n)
+  let (s2, q) := runPolicy post false (fun _ => false) fuel s1
+  s!"ok wire={wireDesc w} pause={chunks n s1} quiet={chunks n s2} rest={b01 (q && s2.quiescent)} B={bound w}"
+
+end Strax.Driver.C13
+
+namespace Strax.Driver
+open Strax Strax.Driver.C13
+
+/-- ops of property C13 -/
 def handleC13 : List String → Option String
+  | ["c13.wire", lazy, caps, savers] => do
+    let w ← parseWiring lazy caps savers
+    pure (showWire w)
+  | ["c13.rest", lazy, caps, savers, n, k, pre, post] => do
+    let w ← parseWiring lazy caps savers
+    pure (rest w (← n.toNat?) (← k.toNat?) (← parsePolicy pre) (← parsePolicy post))
   | _ => none
 
 end Strax.Driver
